@@ -10,14 +10,17 @@ PRE = {'bol': '', 'space': 'zz = ', 'lparen': 'zz = (', 'lbracket': 'zz = [', 'l
        'plus': 'zz = 1+', 'colon': 'zz = {1:', 'dot': 'zz = alpha.', 'semicolon': 'zz = 1;', 'star': 'zz = 2*', 'at': 'zz = alpha@',
        'minus': 'zz = -', 'not': 'zz = not '}
 CLOSE = {'lparen': ')', 'lbracket': ']', 'lbrace': '}', 'comma': ')', 'colon': '}'}
-RUNS = ['', 'a', 'al', 'alp']
+RUNS = {'ascii': ['', 'a', 'al', 'alp'], 'under9': ['', '_', '_9', '_9a'], 'nonascii': ['', '\u00e4', '\u00e4\u00df', '\u00e4\u00dfp']}
 FOL = {'eol': '', 'space': ' ', 'ident': 'ha', 'rparen': None, 'comma': None, 'dot': '.real'}
 
 
 def instantiate(cx):
     """(source, (line, col)) or None"""
-    pre, run, fol, ctx = cx['pre'], RUNS[cx['run']], cx['fol'], cx['ctx']
-    head = 'alpha = 1\nalphabet = 2\n'
+    abc = cx.get('abc', 'ascii')
+    pre, run, fol, ctx = cx['pre'], RUNS[abc][cx['run']], cx['fol'], cx['ctx']
+    if abc != 'ascii' and (cx['run'] == 0 or ctx in ('import', 'fromimport')):
+        return None         # same text as the ascii context / module names are ASCII here
+    head = 'alpha = 1\nalphabet = 2\n_9ab = 3\n\u00e4\u00dfpha = 4\n'
     if ctx == 'code':
         left = PRE[pre] + run
         close = CLOSE.get(pre, '')
@@ -62,7 +65,7 @@ def instantiate(cx):
     elif ctx == 'attrstore':
         if pre != 'dot' or fol not in ('eol', 'ident', 'space'):
             return None
-        head = 'class K:\n    def m(self):\n        self.alpha = 1\n'
+        head = 'class K:\n    def m(self):\n        self.alpha = 1\n        self._9ab = 1\n        self.\u00e4\u00dfpha = 1\n'
         left = '        self.' + run
         line = left + ('ha' if fol == 'ident' else 'x' if not run else '') + ' = 2'
     elif ctx == 'import':
@@ -146,7 +149,9 @@ def one_call(cid, src, fn, pos, project, kind, meta):
         if b is not None:
             expected, transparent = b, True
     if not all(ord(c) < 128 for c in left):
-        return None
+        if 'cx' not in meta:
+            return None      # real files: the cursor comes from AST columns (UTF-8 bytes), the text is cut by characters
+        transparent = False  # generated contexts: the cursor is a character offset; only the textual clauses apply
     return {'id': cid, 'left': codes(left[-60:]), 'prefix': codes(prefix), 'proposals': [codes(p) for p in props],
             'kind': kind, 'transparent': transparent, 'expected': [codes(p) for p in expected], 'meta': meta}
 
